@@ -61,7 +61,7 @@ func makeKV[K comparable](cfg Cfg, d *Dom[K], count bool) Subject {
 		if n < 2 {
 			n = 2
 		}
-		vd = strDom(n, cfg.VCmp, int(cfg.MapSeed>>8%uint64(len(specialStrings))))
+		vd = strDom(n, cfg.VCmp, int(cfg.MapSeed>>8%uint64(len(strPool()))))
 	} else {
 		vd = keyTextDom(d)
 	}
@@ -70,6 +70,7 @@ func makeKV[K comparable](cfg Cfg, d *Dom[K], count bool) Subject {
 
 // makeSubject constructs the container (through its public constructor) and its model.
 func makeSubject(cfg Cfg, count bool) Subject {
+	curPool = cfg.Pool
 	fam := familyOf(cfg.Kind)
 	n := cfg.Dom
 	if n < 2 {
@@ -77,7 +78,7 @@ func makeSubject(cfg Cfg, count bool) Subject {
 	}
 	switch cfg.Elem {
 	case "int":
-		d := intDom(n, cfg.Cmp, int(cfg.MapSeed>>16%uint64(len(specialInts))))
+		d := intDom(n, cfg.Cmp, int(cfg.MapSeed>>16%uint64(len(intPool()))))
 		switch fam {
 		case "list":
 			return newListSubj(cfg, d)
@@ -91,7 +92,7 @@ func makeSubject(cfg Cfg, count bool) Subject {
 			return makeKV(cfg, d, count)
 		}
 	case "string":
-		d := strDom(n, cfg.Cmp, int(cfg.MapSeed%uint64(len(specialStrings))))
+		d := strDom(n, cfg.Cmp, int(cfg.MapSeed%uint64(len(strPool()))))
 		switch fam {
 		case "list":
 			return newListSubj(cfg, d)
@@ -202,6 +203,7 @@ func genCfg(r *Rng, kinds []string, tier string) Cfg {
 		cfg.VDom = r.Range(2, 9)
 	}
 	cfg.MapSeed = r.U64()
+	cfg.Pool = 1
 	if usesCmp(cfg.Kind) && familyOf(cfg.Kind) != "list" && cfg.Cmp == "nat" && (cfg.VCmp == "" || cfg.VCmp == "nat") && cfg.Elem != "item" && r.Bool() {
 		cfg.Ctor = "default" // New(): the default comparator path
 	}
